@@ -2,7 +2,8 @@
 
    Source modelled (pybads/bads/options.py, pybads/bads/bads.py l.171-189):
      Options.__init__          self["useroptions"] = set(); load_options_file(basic, {"D": D});
-                               if user_options is not None: self.update(user_options);
+                               if user_options is not None: if "useroptions" in user_options: raise ValueError;
+                                                            self.update(user_options);
                                                             self["useroptions"].update(user_options.keys())
      load_options_file         for key, val in evaluation_parameters.items(): exec(f"{key} = {val}", globals())
                                for (key, value, _) in file order:
@@ -24,7 +25,7 @@ Open Scope Z_scope.
 
 Inductive value : Type :=
 | VUser (tag : Z)                                  (* an object supplied by the caller, identified by its tag *)
-| VSet (names : list string)                       (* a set of strings (only meaningful for the reserved key "useroptions") *)
+| VSet (names : list string)                       (* a set of strings (a caller value like any other) *)
 | VInt (d : Z)                                     (* the value of the module-global D *)
 | VAbsent                                          (* self.get of a key that is not in the store: None *)
 | VDefault (key : string) (args : list (string * value))   (* eval of key's default text, with these values of its free names *)
@@ -120,12 +121,10 @@ Fixpoint load_entries (gd : option Z) (uo : list string) (es : file) (st : store
 Definition bind_D (oD : option Z) (g : option Z) : option Z :=
   match oD with Some d => Some d | None => g end.
 
-(* self.update(user): copies entries in the caller's dict order.  The reserved key is the protected
-   set itself, kept in [useropts], not in [store_of]. *)
+(* self.update(user): copies entries in the caller's dict order (a user dict naming the reserved key
+   never gets here: Options.__init__ rejects it first). *)
 Definition update_store (st : store) (user : store) : store :=
-  fold_left (fun s kv => if String.eqb (fst kv) reserved then s else upd (fst kv) (snd kv) s) user st.
-
-Definition union (s ks : list string) : list string := s ++ filter (fun k => negb (mem k s)) ks.
+  fold_left (fun s kv => upd (fst kv) (snd kv) s) user st.
 
 Inductive op :=
 | Init (i : nat) (f : file) (oD : option Z) (ou : option nat)    (* objs[i] = Options(f, {"D": D} | {}, callers[u] | None) *)
@@ -149,16 +148,9 @@ Definition step (w : world) (o : op) : world * outcome :=
            | None => (mkWorld gd (set_at (insts w) i (mkInst st1 [])) (callers w), Done)
            | Some u =>
                let user := callers w u in
-               let st2 := update_store st1 user in
-               match get reserved user with
-               | None => (mkWorld gd (set_at (insts w) i (mkInst st2 (keys user))) (callers w), Done)
-               | Some (VSet s) =>
-                   (* the protected set IS the caller's set object now, and it is extended in place *)
-                   let s' := union s (keys user) in
-                   (mkWorld gd (set_at (insts w) i (mkInst st2 s'))
-                            (set_at (callers w) u (upd reserved (VSet s') user)), Done)
-               | Some _ => (mkWorld gd (insts w) (callers w), Raised "AttributeError")
-               end
+               (* if "useroptions" in user_options: raise ValueError — after the basic load, before update *)
+               if mem reserved (keys user) then (mkWorld gd (insts w) (callers w), Raised "ValueError")
+               else (mkWorld gd (set_at (insts w) i (mkInst (update_store st1 user) (keys user))) (callers w), Done)
            end
   | Load i f oD =>
       let gd := bind_D oD (gD w) in
